@@ -125,6 +125,14 @@ Theorem C06_version_exact : forall line, stored_version line = line.
 Proof. exact version_exact. Qed.
 Print Assumptions C06_version_exact.
 
+(* Transport.connect(hostkey=pinned) proceeds to authentication iff the server key the exchange
+   verified has the pinned type name and the pinned blob; any other key raises before credentials
+   are sent *)
+Theorem C06_pinned_key_exact :
+  forall sn pn sb pb, connect_pin sn pn sb pb = Ok tt <-> (sn = pn /\ sb = pb).
+Proof. exact pinned_key_exact. Qed.
+Print Assumptions C06_pinned_key_exact.
+
 (* the session id is the H of the first exchange, after any sequence of exchanges and NEWKEYS *)
 Theorem C06_session_id_latch :
   forall l, s_sid (run_events init_state l) = option_map PBytes (first_H l).
